@@ -11,7 +11,7 @@ the owner with pub.New, harvests its children and records what was shown per pos
 import vlib
 from checks.common import run_harness
 
-OUTBOX = ["legit_emb", "legit_ref", "legit_author_no_actor", "legit_actor_emb", "legit_noid", "legit_stub", "legit_announce", "other_actor",
+OUTBOX = ["legit_emb", "legit_ref", "legit_author_no_actor", "legit_announce_wrapped", "legit_actor_emb", "legit_noid", "legit_stub", "legit_announce", "other_actor",
           "other_actor_samehost_query", "other_actor_case", "no_actor", "fetch_fails", "not_activity", "foreign_claims_owner_id", "actor_fetch_fails", "anon_actor", "redirected_forged"]
 REPLIES = ["legit_emb", "legit_ref", "legit_stub", "legit_author_no_actor", "other_parent", "other_parent_case", "no_parent", "parent_fetch_fails", "fetch_fails",
            "not_post", "parent_other_host_same_path", "forged_author", "anon_parent", "redirected_forged"]
